@@ -20,7 +20,7 @@ RULE = (
     "each run draws maxsize in {None,0,1,2,3}, 2..4 tasks with 1..3 ops each over {call key, cache_clear, "
     "cache_discard key, cache_info} on 1..3 keys, a wrapped coroutine suspending 1..2 times per invocation, "
     "optionally one failing invocation and one task cancelled at its c-th suspension; every pick is the "
-    "scheduler's. Oracle: currsize<=maxsize after every step; every returned value comes from a successful "
+    "scheduler's. Oracle: currsize<=maxsize after every step, and currsize never shrinks from one step to the next unless a cache_clear / cache_discard was issued (calls only ever add entries, evicting at most what the new entry needs); every returned value comes from a successful "
     "invocation for an equal key that completed earlier; at quiescence hits+misses == calls started since the "
     "last clear and misses == invocations started since then; nothing cached from failed/cancelled calls; "
     "afterwards a sequential continuation of calls / discards / clears from the contents left behind must be explained "
